@@ -180,28 +180,27 @@ theorem nodup_labelStrings {g : BuildGraph} (hd : PrintedDistinct g) :
       subst this; exact hn'.1 hj
 
 /-- `grog list <patterns>` prints, sorted, exactly the labels of the nodes that match the patterns, the
-    filters and the platform; each once when labels are distinct. -/
+    filters and the platform (an alias: its label against the patterns, the target it points to against the
+    other filters — `selMatchesAt`, `selPlatAt`); each once when labels are distinct. -/
 theorem list_exact (g : BuildGraph) (s : Selector) (h : Host) :
     (listCmd g s h).Pairwise (fun a b => bytesLe a b = true) ∧
     (∀ x, x ∈ listCmd g s h ↔
-      ∃ (i : Nat) (n : Node), g.nodes[i]? = some n ∧ matchesFilters s n = true ∧ platformOK h n = true ∧ x = n.label.toBytes) ∧
+      ∃ (i : Nat) (n : Node), g.nodes[i]? = some n ∧ g.selMatchesAt s i = true ∧ g.selPlatAt h i = true ∧ x = n.label.toBytes) ∧
     (PrintedDistinct g → (listCmd g s h).Pairwise (fun a b => bytesLt a b = true)) := by
   have hsorted : (listCmd g s h).Pairwise (fun a b => bytesLe a b = true) :=
     List.pairwise_mergeSort bytesLe_trans bytesLe_total _
   refine ⟨hsorted, fun x => ?_, fun hd => ?_⟩
   · rw [listCmd, printSortedOld, (List.mergeSort_perm _ bytesLe).mem_iff, mem_labelStrings]
-    simp only [selectForQuery, List.mem_filter, List.mem_range, Bool.and_eq_true,
-      BuildGraph.matchesAt, BuildGraph.platAt]
+    simp only [selectForQuery, List.mem_filter, List.mem_range, Bool.and_eq_true]
     constructor
     · rintro ⟨i, ⟨_, hm, hp⟩, n, hn, rfl⟩
-      rw [hn] at hm hp
       exact ⟨i, n, hn, hm, hp, rfl⟩
     · rintro ⟨i, n, hn, hm, hp, rfl⟩
       have hlt : i < g.nodes.length := by
         by_cases hlt : i < g.nodes.length
         · exact hlt
         · rw [List.getElem?_eq_none (by omega)] at hn; cases hn
-      refine ⟨i, ⟨hlt, ?_, ?_⟩, n, hn, rfl⟩ <;> rw [hn] <;> assumption
+      exact ⟨i, ⟨hlt, hm, hp⟩, n, hn, rfl⟩
   · have hnd : (listCmd g s h).Nodup := by
       rw [listCmd, printSortedOld]
       refine (List.mergeSort_perm _ bytesLe).nodup_iff.mpr (nodup_labelStrings hd _ ?_)
